@@ -82,7 +82,7 @@ CHECKS = {
     },
     "C13": {
         "explanation": "Channel.Get/Commit/Rollback/Buffer steps from an arbitrary valid state (pending buffer <= 4, rollback <= len, source holding <= 3 values), a 6-operation symbolic history against a reference model, TryRecv on a closed source.",
-        "quick": [seq("Harness_C13_get_step"), seq("Harness_C13_commit_rollback_step"), seq("Harness_C13_closed_source")],
+        "quick": [seq("Harness_C13_get_step"), seq("Harness_C13_commit_rollback_step"), seq("Harness_C13_closed_source"), sched("Harness_C13_get_vs_close", 18)],
         "thorough": [seq("Harness_C13_history", timeout_ms=300000)],
         "assumptions": ["reflect.Value.TryRecv/Interface are contract stubs", "polling path (nothing available) is outside the sequential steps"],
     },
@@ -99,8 +99,8 @@ CHECKS = {
         "assumptions": ["context model: cancellation of a subtree is one atomic step; 'promptly' is quiescence"],
     },
     "C17": {
-        "explanation": "Worker: two Do callers whose done calls happen at arbitrary points with the real wait()/do() goroutines, every interleaving (T=26).",
-        "quick": [sched("Harness_C17_worker_two_holders", 26, timeout_ms=300000)],
+        "explanation": "Worker: two Do callers whose done calls happen at arbitrary points with the real wait()/do() goroutines, every interleaving (T=28).",
+        "quick": [sched("Harness_C17_worker_two_holders", 28, timeout_ms=400000)],
         "thorough": [],
         "assumptions": ["two holders"],
     },
